@@ -70,7 +70,8 @@ stun_usage_ice_conncheck_create (StunAgent *agent, StunMessage *msg,
 {
   StunMessageReturn val;
 
-  stun_agent_init_request (agent, msg, buffer, buffer_len, STUN_BINDING);
+  if (!stun_agent_init_request (agent, msg, buffer, buffer_len, STUN_BINDING))
+    return 0;
 
   if (compatibility == STUN_USAGE_ICE_COMPATIBILITY_RFC5245 ||
       compatibility == STUN_USAGE_ICE_COMPATIBILITY_MSICE2) {
